@@ -1089,6 +1089,36 @@ fn check_swizzle(i: u64) -> Verdict {
     }
 }
 
+/// an lvalue of type A passed to an `out` / `inout` parameter of type P (both from {bool,int,uint,float} x {scalar,1,2,3}):
+/// accepted exactly when the types are equal, or are T and T1 of the same scalar (a one-element vector aliases its scalar)
+fn out_argument_case(i: u64) -> (String, bool, String) {
+    const SC: [&str; 4] = ["bool", "int", "uint", "float"];
+    let mut k = i as usize;
+    let mut take = |n: usize| {
+        let r = k % n;
+        k /= n;
+        r
+    };
+    let (sa, da, sp, dp, mode) = (take(4), take(4), take(4), take(4), take(2));
+    let name = |s: usize, d: usize| if d == 0 { SC[s].to_string() } else { format!("{}{}", SC[s], d) };
+    let (ta, tp) = (name(sa, da), name(sp, dp));
+    let ok = sa == sp && (da == dp || (da <= 1 && dp <= 1));
+    let m = ["out", "inout"][mode];
+    let src = format!("void zcallee({} {} p) {{ p = ({})0; }}\nvoid f() {{\n    {} v = ({})0;\n    zcallee(v);\n}}\n", m, tp, tp, ta, ta);
+    (src, ok, format!("{} argument for {} {} parameter", ta, m, tp))
+}
+
+fn check_out_argument(i: u64) -> Verdict {
+    let (src, ok, what) = out_argument_case(i);
+    match type_check_text(&src) {
+        Err(p) => Verdict::fail(format!("panic:{}", p), src),
+        Ok(Ok(_)) if !ok => Verdict::fail("ill-typed-accepted:out-argument-type", format!("{}: accepted although the argument is not an lvalue of the parameter's type\n{}", what, src)),
+        Ok(Err(d)) if ok => Verdict::fail("valid-program-rejected:out-argument-type", format!("{}: {}\n{}", what, d, src)),
+        Ok(Ok(_)) => Verdict::pass(Some(i), vec!["out_argument_accepted".into()]),
+        Ok(Err(_)) => Verdict::pass(Some(i), vec!["out_argument_rejected".into()]),
+    }
+}
+
 pub fn check_record(r: &Value) -> Verdict {
     match r["kind"].as_str().unwrap_or("") {
         "lint" => {
@@ -1097,6 +1127,7 @@ pub fn check_record(r: &Value) -> Verdict {
         }
         "catalogue" => check_catalogue(r["name"].as_str().unwrap_or("")),
         "swizzle" => check_swizzle(r["index"].as_u64().unwrap_or(0)),
+        "out_argument" => check_out_argument(r["index"].as_u64().unwrap_or(0)),
         "inject" => {
             let base = r["base"].as_str().unwrap_or("");
             let name = r["violation"].as_str().unwrap_or("");
@@ -1109,7 +1140,7 @@ pub fn check_record(r: &Value) -> Verdict {
 
 pub fn run(ctx: &mut Ctx) {
     use proptest::prelude::*;
-    ctx.rule = "(1) IR lint: generated programs of the resource-free subset (always accepted, checked), every 1-2 operator expression tree over the whole operator table on int / float / mixed int-float-uint-bool operands (accepted or rejected; only accepted ones are linted), and the repository's own .rssl inputs are type checked; the resulting module is walked by an independent checker with structural types (operand types equal and of the required class for every operator, non-const lvalues for every write, call arity / argument types / out arguments, return types, constructor slots, initialiser shapes, conditions, subscripts, existing ids) and by RSSL's own Expression::get_type asserts. (2) Injection: 86 kinds of single typing violations (writes to const incl. members / elements / swizzles of const objects and static const globals, writes to rvalues, rvalue or const out / inout arguments, argument count and type errors, return type errors, non-boolean conditions, non-integer switch values, operator operand classes, initialiser shapes, ...) are placed in 15 expression / 5 statement / 3 return contexts inside a function appended before or after a generated program or as a struct method; the program with the violation must be rejected with a diagnostic and its valid twin must be accepted. Writes through every swizzle of length 1-4 over xyzw / rgba on float2/3/4 in four write positions (=, +=, out argument, ++) must be accepted exactly when all components exist and none repeats (8 160 cases). A catalogue of 10 resource-related pairs (writes to read-only buffers, textures and constant buffers, resources as operands) is checked the same way. Non-trivial: lint = module with at least 3 expressions; injection = violation rejected and twin accepted. Distinct = hash of the source.".into();
+    ctx.rule = "(1) IR lint: generated programs of the resource-free subset (always accepted, checked), every 1-2 operator expression tree over the whole operator table on int / float / mixed int-float-uint-bool operands (accepted or rejected; only accepted ones are linted), and the repository's own .rssl inputs are type checked; the resulting module is walked by an independent checker with structural types (operand types equal and of the required class for every operator, non-const lvalues for every write, call arity / argument types / out arguments, return types, constructor slots, initialiser shapes, conditions, subscripts, existing ids) and by RSSL's own Expression::get_type asserts. (2) Injection: 86 kinds of single typing violations (writes to const incl. members / elements / swizzles of const objects and static const globals, writes to rvalues, rvalue or const out / inout arguments, argument count and type errors, return type errors, non-boolean conditions, non-integer switch values, operator operand classes, initialiser shapes, ...) are placed in 15 expression / 5 statement / 3 return contexts inside a function appended before or after a generated program or as a struct method; the program with the violation must be rejected with a diagnostic and its valid twin must be accepted. Writes through every swizzle of length 1-4 over xyzw / rgba on float2/3/4 in four write positions (=, +=, out argument, ++) must be accepted exactly when all components exist and none repeats (8 160 cases). An lvalue of every type from {bool, int, uint, float} x {scalar, 1, 2, 3} passed to an out / inout parameter of every such type (512 cases) is accepted exactly for equal types or T / T1 of one scalar. A catalogue of 10 resource-related pairs (writes to read-only buffers, textures and constant buffers, resources as operands) is checked the same way. Non-trivial: lint = module with at least 3 expressions; injection = violation rejected and twin accepted. Distinct = hash of the source.".into();
     ctx.assumptions.push("the linter models the resource-free subset; object types, intrinsic signatures and matrices' aggregate initialisers are treated as opaque and counted".into());
     ctx.assumptions.push("a condition may have any numeric or enum type (it is converted where it is used); default argument values are stored unconverted and only need to be convertible".into());
     if !ctx.replay_tier(&check_record) {
@@ -1121,6 +1152,8 @@ pub fn run(ctx: &mut Ctx) {
     // ---- exhaustive: writes through every swizzle
     let swizzle_total = (3 * 4 * 2 * 340) as u64;
     ctx.run_enum("swizzle_write_table", swizzle_total, true, |i| json!({"kind": "swizzle", "index": i}), |i| check_record(&json!({"kind": "swizzle", "index": i})));
+    // ---- exhaustive: argument type x out / inout parameter type
+    ctx.run_enum("out_argument_type_table", 512, true, |i| json!({"kind": "out_argument", "index": i}), |i| check_record(&json!({"kind": "out_argument", "index": i})));
     // ---- exhaustive: every violation kind x context x placement on an empty base
     let n_ctx = CONTEXTS.len();
     let total = (VIOLATIONS.len() * n_ctx * 3) as u64;
